@@ -883,6 +883,19 @@ def I_rules(ctx, rule="I"):
     if st_idx is None:
         ctx.unverifiable(rule + "1", "track-fn", "-", "the tracking function has no interruptibility state parameter / field")
         return
+    # inside the tracking function the state handed to `interruptible_with` is the one it was given, whatever that state says:
+    # no substitute (`new_non_interruptible()` when the receiver looks closed, a reborrowed default) decides for the caller
+    n_wrap = 0
+    for bx in m.reach_bodies(tf["id"]):
+        for bbx, tx in bx.calls():
+            if callee_path(tx) != "interruptible::InterruptibleStreamExt::interruptible_with" or len(tx["args"]) < 2:
+                continue
+            n_wrap += 1
+            ss_ = fl.sources_operand(bx, tx["args"][1], (), "prov@" + tf["id"])
+            foreign = [x for x in ss_ if not (x.kind == "param" and x[1] == tf["id"] and x[2] == st_idx[0])]
+            ctx.check(bool(ss_) and not foreign, rule + "1", "track-state-unchanged|%s" % short(bx.id), m.where(bx, bbx),
+                      "the ready stream is wrapped with exactly the interruptibility state the tracking function was given",
+                      "the ready stream can be wrapped with a state other than the caller's (%s): a pending or later signal is ignored" % [fmt_src(x) for x in foreign][:3])
     so = fb.adts["stream_opts::StreamOpts"]["variants"][0]["fields"]
     f_state = [i for i, f in enumerate(so) if "InterruptibilityState" in f["ty"]["s"]][0]
     f_inc = [i for i, f in enumerate(so) if f["ty"]["s"] == "bool"][0]
